@@ -105,8 +105,11 @@ func (r *reducer) clause(p *progen.Program, template bool) string {
 func (r *reducer) minimise(p *progen.Program, template bool, clause string) *progen.Program {
 	// candidates may not introduce a phenomenon the original did not have (no sliding into another defect)
 	allowed := progen.Flags(p)
+	for _, t := range dispatchTokens(p) {
+		allowed[t] = true
+	}
 	red, _ := progen.Reduce(p, func(q *progen.Program) bool {
-		return progen.FlagsWithin(q, allowed) && r.clause(q, template) == clause
+		return progen.FlagsWithin(q, allowed) && dispatchWithin(q, allowed) && r.clause(q, template) == clause
 	}, 4000)
 	can := progen.Canonical(red)
 	if r.clause(can, template) == clause {
@@ -120,7 +123,9 @@ func (r *reducer) minimise(p *progen.Program, template bool, clause string) *pro
 // fine enough that a defect in another construct gets another key. The minimal program itself
 // (the smallest seen for the key) is kept in the replay file.
 func keyOf(clause string, template bool, min *progen.Program) string {
-	k := clause + " [" + strings.Join(progen.Signature(min), " ") + "]"
+	sig := append(progen.Signature(min), dispatchTokens(min)...) // (programs without dispatch tokens keep their old keys)
+	sort.Strings(sig)
+	k := clause + " [" + strings.Join(sig, " ") + "]"
 	if template {
 		k = "template-only " + k
 	}
@@ -132,7 +137,7 @@ func keyOf(clause string, template bool, min *progen.Program) string {
 type shardArg struct {
 	Tier string `json:"tier"`
 	Seed int64  `json:"seed"`
-	Kind string `json:"kind"` // "mod": items of F1..F3 with index % M == I ; "f4": F4 indices [From,To)
+	Kind string `json:"kind"` // "mod": items of F1..F3 with index % M == I ; "f4": F4 indices [From,To) ; "f5": items of F5 with index % M == I
 	I    int    `json:"i"`
 	M    int    `json:"m"`
 	From int    `json:"from"`
@@ -285,6 +290,21 @@ func progWorker(w *pool.W, arg json.RawMessage) {
 			one(it, modes)
 			return true
 		})
+	case "f5":
+		idx := 0
+		F5(f5Bounds(sh.Tier), func(fi f5Item) bool {
+			if idx%sh.M == sh.I {
+				p := fi.Build()
+				progen.Concretise(p, b.Seed)
+				modes := []bool{false}
+				if fi.Template {
+					modes = []bool{false, true}
+				}
+				one(progen.Item{ID: fi.ID, Family: "F5", P: p}, modes)
+			}
+			idx++
+			return true
+		})
 	}
 	for _, f := range fails {
 		w.Emit(rec{Kind: "fail", Fail: f})
@@ -339,6 +359,13 @@ func main() {
 	}
 	for i := 0; i < m; i++ {
 		shards = append(shards, pool.Shard{Kind: "prog", Arg: shardArg{Tier: c.Tier, Seed: c.Seed, Kind: "mod", I: i, M: m, Deadline: deadline}})
+	}
+	m5 := 64
+	if !c.Quick() {
+		m5 = 512
+	}
+	for i := 0; i < m5; i++ {
+		shards = append(shards, pool.Shard{Kind: "prog", Arg: shardArg{Tier: c.Tier, Seed: c.Seed, Kind: "f5", I: i, M: m5, Deadline: deadline}})
 	}
 	n4 := progen.F4Count(b)
 	step := 400
@@ -414,10 +441,12 @@ func main() {
 	c.Set("bounds", b)
 	c.Set("f1_links", progen.F1Links)
 	c.Set("f1_payloads", progen.F1Payloads)
+	c.Set("f5_bounds", map[string]int{"switch_labels_full_cross": f5Bounds(c.Tier).SwitchK, "switch_labels_other_forms": f5Bounds(c.Tier).SubK, "match_conditions": f5Bounds(c.Tier).MatchC, "chain_conditions": f5Bounds(c.Tier).ChainK})
+	c.Set("f5_programs_in_bound", F5Count(f5Bounds(c.Tier)))
 	c.Assume("reference semantics = PHP on the subset where docs/control-structures.md, docs/functions.md and PHP agree: ints, strings, bools; + - * % and < <= > >= on two ints; == on equal types; conditions are bools; echo of ints and strings")
 	c.Assume("a `continue` that meets a `switch` is accepted under both readings (PHP: switch counts as a loop level and `continue` on it acts like `break`; C-like: switch is transparent)")
 	c.Assume("functions are declared before their first call (origami does not hoist declarations; hoisting is not part of the statement)")
-	c.Assume("outside the bound: programs larger than the families, floats/null/mixed-type arithmetic in counters (C03 owns operator semantics), closures, generators, goto, references, default: not in last position")
+	c.Assume("outside the bound: programs larger than the families, floats/null/mixed-type arithmetic in counters (C03 owns operator semantics), closures, generators, goto, references; switch/match labels of another type than the subject (loose comparison across types is C03's)")
 	if skipped > 0 {
 		c.NotExhaustive(fmt.Sprintf("internal deadline reached: %d programs of the bound were not run (%d were)", skipped, total))
 	}
@@ -425,7 +454,7 @@ func main() {
 		c.HarnessError("vacuous: %d programs, %d distinct reference outputs, %d agreeing runs", total, len(hashes), agree)
 	}
 	c.Finish(total, runs+redTests, runs,
-		fmt.Sprintf("every program of families F1 (chains <= %d over 9 constructs x 8 payloads x variants), F2 (functions), F3 (fast paths/aliasing), F4 (all %d-statement lists over the alphabet), %d iterations per loop, run in plain and <?php mode and compared with the reference interpreter; distinct = distinct reference outputs",
+		fmt.Sprintf("every program of families F1 (chains <= %d over 9 constructs x 8 payloads x variants), F2 (functions), F3 (fast paths/aliasing), F4 (all %d-statement lists over the alphabet), F5 (switch/match/elseif dispatch: every label form x value x default position x ending x subject form), %d iterations per loop, run in plain and <?php mode and compared with the reference interpreter; distinct = distinct reference outputs",
 			b.F1Depth, b.F4Len, b.Iter))
 }
 
